@@ -19,7 +19,7 @@ theorem hook_dispatch (env : Env) (n : Nat) (p : PP) (arg : Val) (ms : Methods) 
     (hh : env.hook = some h) (ho : p.override ≠ .ovUnsafe) (he : ms.isError = true)
     (hsf : ms.safeFormatter = false) (hsm : ms.safeMessager = false) :
     methDispatch env (n + 1) p arg ms nr ret sc verb =
-      (true, catchPanic env n p arg verb "SafeFormatter".toUTF8.toList nr
+      (true, catchPanic env n p arg verb ([0x53, 0x61, 0x66, 0x65, 0x46, 0x6F, 0x72, 0x6D, 0x61, 0x74, 0x74, 0x65, 0x72] /- "SafeFormatter" -/ : List UInt8) nr
         (if nr then .raised p .nil else runScript env n p (h ret verb))) := by
   simp [methDispatch, hh, ho, he, hsf, hsm]
 
@@ -35,7 +35,7 @@ theorem hook_verb_for_w (env : Env) (n : Nat) (p : PP) (ms : Methods) (ty : List
 theorem hook_not_for_safeFormatter (env : Env) (n : Nat) (p : PP) (arg : Val) (ms : Methods) (nr : Bool) (ret : Nat)
     (sc : Script) (verb : Nat) (ho : p.override ≠ .ovUnsafe) (hsf : ms.safeFormatter = true) :
     methDispatch env (n + 1) p arg ms nr ret sc verb =
-      (true, catchPanic env n p arg verb "SafeFormat".toUTF8.toList nr
+      (true, catchPanic env n p arg verb ([0x53, 0x61, 0x66, 0x65, 0x46, 0x6F, 0x72, 0x6D, 0x61, 0x74] /- "SafeFormat" -/ : List UInt8) nr
         (if nr then .raised p .nil else runScript env n p sc)) := by
   simp [methDispatch, ho, hsf]
 
@@ -45,14 +45,14 @@ theorem hook_bypassed_under_unsafe (env : Env) (n : Nat) (p : PP) (arg : Val) (m
     (sc : Script) (verb : Nat) (ho : p.override = .ovUnsafe) (he : ms.isError = true) (hf : ms.formatter = false)
     (hsv : p.f.sharpV = false) (hverb : verb = 118 ∨ verb = 115 ∨ verb = 120 ∨ verb = 88 ∨ verb = 113) :
     methDispatch env (n + 1) p arg ms nr ret sc verb =
-      (true, catchPanic env n p arg verb "Error".toUTF8.toList nr (retOut nr p sc (fmtString env n p arg ret verb))) := by
+      (true, catchPanic env n p arg verb ([0x45, 0x72, 0x72, 0x6F, 0x72] /- "Error" -/ : List UInt8) nr (retOut nr p sc (fmtString env n p arg ret verb))) := by
   simp [methDispatch, ho, he, hf, hsv, hverb]
 
 /-- A panic in the hook is contained like any other method panic: it is reported
 in place and the frame is kept (instance of the frame theorem). -/
 theorem hook_panic_contained (env : Env) (he : EnvOk env) (n : Nat) (p : PP) (hp : Pre p) (arg : Val) (verb : Nat)
     (out : SRes) (hout : GS p out) (q : PP)
-    (h : catchPanic env n p arg verb "SafeFormatter".toUTF8.toList false out = .ok q) :
+    (h : catchPanic env n p arg verb ([0x53, 0x61, 0x66, 0x65, 0x46, 0x6F, 0x72, 0x6D, 0x61, 0x74, 0x74, 0x65, 0x72] /- "SafeFormatter" -/ : List UInt8) false out = .ok q) :
     Inv q.buf ∧ q.buf.mode = p.buf.mode ∧ q.override = p.override :=
   ((spec_all env he n).catchPanic p p arg verb _ false out hp hout).1 q h
 
